@@ -837,6 +837,23 @@ impl DiffHook for NestingRecorder {
     }
 }
 
+/// A caller-defined lookup whose valid indices start at a (possibly huge) base: `index(base + i)` is
+/// `data[i]`; anything else panics as an out-of-range access by the library.
+pub struct Based<'a> {
+    pub data: &'a [u32],
+    pub base: usize,
+}
+
+impl<'a> Index<usize> for Based<'a> {
+    type Output = u32;
+    fn index(&self, i: usize) -> &u32 {
+        match i.checked_sub(self.base).and_then(|k| self.data.get(k)) {
+            Some(x) => x,
+            None => panic!("{}: library indexed position {} of a lookup that covers {}..{}", crate::core::LIB_FAULT_PREFIX, i, self.base, self.base.wrapping_add(self.data.len())),
+        }
+    }
+}
+
 /// A lookup type that lives at the SAME ADDRESS as the Vec it wraps (repr(transparent)) but indexes
 /// it back to front: `&view.0` and `&view` are two different sequences sharing address and size.
 #[repr(transparent)]
